@@ -11,6 +11,7 @@ type cfgSpec struct {
 	L       int      `json:"L"`       // max message buffer bytes, 0 = default
 	MaxGet  int      `json:"maxget"`  // max GET URL bytes, 0 = default
 	Unknown bool     `json:"unknown"` // unknown-endpoint handler configured
+	Discard bool     `json:"discard"` // REST unmarshal option DiscardUnknownQueryParams
 	Aux     bool     `json:"aux"`     // a second service (verif.v1.Aux) with a type resolver that resolves nothing
 	Schema  string   `json:"schema"`  // how the schema is supplied ("" = dynamic)
 }
